@@ -462,6 +462,7 @@ pub fn shrink_runloop(sc: &RunloopSc, fails: &mut dyn FnMut(&RunloopSc) -> bool)
     attempt!(|c: &mut RunloopSc| c.env.stalls.clear());
     attempt!(|c: &mut RunloopSc| c.via_parser = false);
     attempt!(|c: &mut RunloopSc| c.prelude.clear());
+    attempt!(|c: &mut RunloopSc| c.empty_iset = false);
     {
         let b2 = best.clone();
         let p = best.prog.clone();
